@@ -72,9 +72,14 @@ def step (s : St) (ws : List String) : St × String :=
     | [] => (s, "nobatch")
     | hs :: more =>
       let mode := rest.headD "all"
+      if mode == "second" && more.isEmpty then (s, "nobatch") else
       let (use, left) : List String × List (List String) :=
         if mode == "all" then (hs, more)
         else if mode == "rev" then (hs.reverse, more)
+        else if mode == "second" then (more.headD [], hs :: more.drop 1)
+        else if mode.startsWith "last:" then
+          let j := ((mode.drop 5).toNat?).getD 0
+          if j ≥ hs.length then (hs, more) else (hs.drop (hs.length - j), hs.take (hs.length - j) :: more)
         else
           let j := ((mode.drop 6).toNat?).getD 0
           let j := if j > hs.length then hs.length else j
